@@ -12,7 +12,7 @@ CHECKS = {
         "exhaustive enumeration of coordinate structures (all flat lists up to length 5 over a 7-letter alphabet; nested shapes with deviation-bounded leaf substitutions, arity changes, wrap/unwrap, reversal) x 9 type tags x 4 entry points on the real validators against a recursive validity predicate and normal form",
         "3.49 M (quick) / 73.8 M (thorough) (structure, type tag) cases: all scalars and flat lists of length 0..5 over {0, 1, 2, 3, -1, MAX, MAX+1}, one level of wrong nesting, 50 (210) nested base shapes with every structure within the deviation bound; "
         "each through the constructor, geometry_validate dict / attributes / JSON modes: accepted iff the model says valid, the four entry points agree, rejection is a ValueError subclass, accepted geometries are in normal form, are instances of the class named by the tag, and re-validating the JSON dump gives an equal geometry; type-tag cases (missing, unknown, unhashable, mismatching).",
-        "NaN/inf, numeric strings, booleans and tuples are outside the alphabet (Pydantic lax-mode conventions). Deviation bound shrinks with shape size (literal D<=2 on every shape would be ~1e9 cases).",
+        "NaN/inf, numeric strings and booleans are outside the alphabet (Pydantic lax-mode conventions); tuples and numpy / int leaves occur on example structures only. Deviation bound shrinks with shape size (literal D<=2 on every shape would be ~1e9 cases).",
         "DESIGN.md 4/C03",
     ),
     "C04": (
@@ -165,6 +165,12 @@ CHECKS = {
 PENDING_REASON = "check not built yet (design in DESIGN.md section 4); not claimed until its machinery is committed"
 
 
+LATER = ("The case counts quoted above are those of the first complete build; the seeding rounds 5-9 added members to the explored spaces "
+         "(the same values in other representations, re-runs in other process environments, single large or coincidence-laden "
+         "instances, histories across objects and files). The current bounds, the rule of enumeration and the exact counts are in "
+         "the evidence file of each run (coverage.rule / coverage.bounds) and in DESIGN.md 9.5.")
+
+
 def main():
     props = [json.loads(l) for l in open(os.path.join(HERE, "properties.jsonl"))]
     checks = []
@@ -181,7 +187,7 @@ def main():
                 "replay_cmd_template": "./check %s --replay {path}" % pid,
                 "engine": "mc",
                 "level_claimed": {"category": "model_checking", "text": text, "design_ref": ref},
-                "level_note": note,
+                "level_note": (note + " " if note else "") + LATER,
                 "technique": tech,
             })
         else:
